@@ -467,6 +467,36 @@ fn table_correspondence(report: &mut Report, model: &mut Model) {
             });
         }
     }
+    // ---- ends_with_prefix (crate-private, through the hook) on `x = <expression>`
+    let mut lines = Vec::new();
+    let mut reals = Vec::new();
+    let mut inputs = Vec::new();
+    for shape in &shapes {
+        for e in [shape.clone(), ME::Bin(9, Box::new(ME::Atom(0)), Box::new(shape.clone())), ME::Un(1, Box::new(shape.clone()))] {
+            // a negative literal is a number whatever the model's atom index says
+            if e.sexp().contains("negnum") {
+                continue;
+            }
+            let statement = to_statement(&St::Assign(vec![id("x")], vec![e.ex()]));
+            reals.push(hooks::ends_with_prefix(&statement));
+            lines.push(format!("c02.endsprefix {}", e.sexp()));
+            inputs.push(e.sexp());
+        }
+    }
+    let answers = model.ask_batch(&lines);
+    for ((answer, real), input) in answers.iter().zip(&reals).zip(&inputs) {
+        report.case(Some(("endsprefix", input.clone())));
+        report.hist("table", "ends_with_prefix");
+        if answer != if *real { "true" } else { "false" } {
+            report.violation(Violation {
+                kind: "correspondence".into(),
+                check: "ends-with-prefix".into(),
+                what: format!("ends_with_prefix(x = e) is {} but the model says {}", real, answer),
+                input: json!({"expression": input}),
+                failing_input_found: false,
+            });
+        }
+    }
     // ---- should_break_with_space: all 128 x 128 pairs
     let mut lines = Vec::with_capacity(128 * 128);
     for a in 0..128u32 {
@@ -610,6 +640,7 @@ fn spans_for(thorough: bool, rng: &mut Rng, full: bool) -> Vec<usize> {
     } else {
         let mut v = vec![0, 1, 2, 80];
         v.push(3 + rng.below(30));
+        v.push(rng.below(121));
         v.sort();
         v.dedup();
         v
@@ -637,8 +668,8 @@ pub fn run(report: &mut Report, replay: Option<&str>) {
         let spans = spans_for(thorough, &mut rng, false);
         work.push((family.to_owned(), blk, spans));
     }
-    let random_count = if thorough { 12_000 } else { 1_500 };
-    let full_span_count = if thorough { 1_500 } else { 0 };
+    let random_count = if thorough { 25_000 } else { 6_000 };
+    let full_span_count = if thorough { 3_000 } else { 0 };
     let mut g = Gen::new(rng.fork());
     for i in 0..random_count {
         let depth = 1 + g.rng.below(3);
